@@ -104,7 +104,7 @@ Definition sample (f : fstate) (p : list Q) : res cellv :=
 (* ----- number / array-like ----- *)
 Definition shape_of (m : mesh) (nv : nat) : list Z := n m ++ [Z.of_nat nv].
 
-(* np.full((*n, nvdim), val): general broadcast *)
+(* np.full((n.., nvdim), val): general broadcast *)
 Definition full_bcast (m : mesh) (nv : nat) (sh : list Z) (data : list V) : res (zidx -> cellv) :=
   if bcast_ok sh (shape_of m nv)
   then OK (fun i => map (fun k => nda_at vzero sh data (bcast_idx sh (i ++ [k]))) (ziota 0 nv))
@@ -179,7 +179,7 @@ Definition blocks (m : mesh) (nv : nat) (items : list (string * sspec)) : res (l
 (* `for subregion in reversed(mesh.subregions.keys())`: later-listed first, earlier overwrite *)
 Definition paint (bs : list block) (a0 : oarr) : oarr := fold_left overwrite (rev bs) a0.
 
-(* np.full((*n, nvdim), default) for a non-callable default: no component-count test, plain broadcast *)
+(* np.full((n.., nvdim), default) for a non-callable default: no component-count test, plain broadcast *)
 Definition fill_array (m : mesh) (nv : nat) (s : sspec) : res (zidx -> cellv) :=
   match s with
   | SConst v => OK (fun _ => repeat v nv)
